@@ -50,6 +50,31 @@ theorem public_roundtrip (S : PublicScheme) (L : PublicLaws S) (hdr : List Bytes
     unsealPublic S hdr (S.pubOf sk) tok f a = .ok msg :=
   PM.public_roundtrip S L hdr sk msg f a rnd tok h
 
+/-- **The whole pipeline for public tokens**: `sign` (= encode claims, sign; the nonce draw is empty),
+    `Display`, `FromStr`, `verify` (= verify, decode, validate) returns the claims and the footer — for every
+    scheme whose signatures verify (`PublicLaws`), any codec that round-trips and any accepting validator. -/
+theorem pipeline_roundtrip_public {M : Type} (S : PublicScheme) (L : PublicLaws S) (b : Backend)
+    (hdr : List Bytes) (sk f a rnd payload : Bytes)
+    (enc : M → Bytes) (dec : Bytes → Option M) (claims : M) (val : M → Res Unit)
+    (hcodec : dec (enc claims) = some claims) (hval : val claims = .ok ())
+    (hs : tokenSeal (.ok []) (some f) (some (enc claims)) (fun p f => sealPublic S hdr sk p f a rnd) = .ok (payload, f)) :
+    ∃ t, parseToken (Extracted.versionHeader b) jsonSuffix (Extracted.kindHeader .publicK) FooterKind.vec.ok
+           (showToken (Extracted.versionHeader b) jsonSuffix (Extracted.kindHeader .publicK) ⟨payload, f⟩) = .ok t ∧
+         t.footer = f ∧
+         (tokenUnseal (unsealPublic S hdr (S.pubOf sk) t.payload t.footer a) dec val).1 = .ok claims := by
+  simp only [tokenSeal, List.nil_append] at hs
+  cases hsp : sealPublic S hdr sk (enc claims) f a rnd with
+  | err e => simp [hsp, Res.map, Res.bind] at hs
+  | panic x => simp [hsp, Res.map, Res.bind] at hs
+  | ok tok =>
+    simp only [hsp, Res.map, Res.bind] at hs
+    injection hs with hs
+    injection hs with h1 _
+    subst h1
+    have hu := PM.public_roundtrip S L hdr sk (enc claims) f a rnd tok hsp
+    refine ⟨⟨tok, f⟩, parseToken_showToken _ _ _ _ ⟨tok, f⟩ rfl, rfl, ?_⟩
+    simp [tokenUnseal, hu, hcodec, hval]
+
 /-- fixed-width signature serialisation: r‖s is always 96 bytes and parses back, when padded -/
 theorem serSig_fixed (r s : Nat) (hr : r < 256 ^ 48) (hs : s < 256 ^ 48) :
     ∃ sig, serSig true r s = .ok sig ∧ sig.length = 96 ∧
